@@ -113,12 +113,21 @@ struct Recorder {
 	size_t max_distinct = 4000000;
 };
 inline Recorder rec;
+inline void write_result(bool crashed, const char *crash_kind);
+inline uint64_t g_cases_after_violation = 0;
 
 inline void begin_case(const char *mode, long long idx) {
 	if(strcmp(rec.cur_mode, mode)) { strncpy(rec.cur_mode, mode, sizeof(rec.cur_mode) - 1); rec.cur_mode[sizeof(rec.cur_mode)-1] = 0; }
 	rec.cur_case = idx;
 	rec.cur_detail[0] = 0;
 	rec.evaluations++;
+	// once something has been flagged, later cases run on possibly corrupted state: bound the aftermath
+	if(!rec.violations.empty() && ++g_cases_after_violation > 5000) {
+		rec.counters["stopped_early_after_violation"] = 1;
+		write_result(false, "");
+		fflush(stderr);
+		_exit(1);
+	}
 }
 // literal description of the current case (cheap: only formatted by callers when needed)
 inline void case_detail(const char *fmt, ...) __attribute__((format(printf, 1, 2)));
@@ -178,7 +187,7 @@ inline double elapsed() {
 	return (t.tv_sec - rec.t0.tv_sec) + (t.tv_nsec - rec.t0.tv_nsec) * 1e-9;
 }
 
-inline void write_result(bool crashed = false, const char *crash_kind = "") {
+inline void write_result(bool crashed, const char *crash_kind) {
 	if(opt.out.empty()) return;
 	std::string o = "{";
 	o += "\"driver\":\"" + json_escape(rec.driver) + "\"";
@@ -289,7 +298,7 @@ inline void parse_args(int argc, char **argv, const char *driver) {
 }
 
 inline int finish() {
-	write_result(false);
+	write_result(false, "");
 	fflush(stdout); fflush(stderr);
 	return rec.violations.empty() ? 0 : 1;
 }
